@@ -88,6 +88,9 @@ def term(v, scss=False):
         if scss and q == "s":
             q = "d"
         return f"s {q} {hx(v[1]) or '-'}"
+    if k == "strl":
+        q, raw = strraw(v[1])
+        return f"s {q} {hx(raw) or '-'}"
     if k == "color":
         return "c " + " ".join(str(bits_of(float(c))) for c in v[1])
     if k == "fn":
@@ -137,6 +140,8 @@ def scss(v, top=True):
             s = repr(float(x)).replace(".0", "") + "e0"
         t = s + us
         return f"({t})" if x < 0 else t
+    if k == "strl":
+        return v[1]
     if k == "numa":
         # a number NOT marked "calculated": the result of calc() — only meaningful inline
         inner = scss(("num", v[1], v[2], v[3]))
@@ -322,6 +327,11 @@ def respell(v, rng):
         return ("num", v[1], v[2], rng.randint(0, 4))
     if k == "str":
         return ("str", v[1], rng.choice("nds"))
+    if k == "strl":
+        for c in ESCAPE_CLASSES:
+            if v[1] in c:
+                return ("strl", rng.choice(c))
+        return v
     if k == "color":
         c = v[1]
         if c[3] == 1.0 and all(float(x) == int(x) for x in c[:3]):
@@ -348,6 +358,57 @@ def units_in(v, acc):
             units_in(a, acc)
             units_in(b, acc)
     return acc
+
+
+_STRRAW = {}
+
+
+def strraw(text):
+    """T1 extraction: quote kind and raw value the literal parser stores for a string literal
+    (escapes are partly normalised at parse time), read from the running code (harness op `strraw`)"""
+    if text not in _STRRAW:
+        from tools.vlib import run_impl, unhx
+        out = run_impl([f"strraw\t{hx(text)}"])[0]
+        q, _, h = out.partition(":")
+        if q not in ("n", "d", "s"):
+            raise ValueError("strraw failed for " + text + ": " + out)
+        _STRRAW[text] = (q, unhx(h) if h else "")
+    return _STRRAW[text]
+
+
+# string literals that are `==` although spelled with different escapes (classes)
+ESCAPE_CLASSES = [
+    ['"a b"', '"a\\20 b"', "'a b'", "'a\\20 b'"],
+    ['"a:b"', '"a\\:b"', "'a:b'"],
+    ['"\\-"', '"-"', "'-'", "'\\-'"],
+    ["'x\\79 '", "'xy'", "xy", '"x\\79"'],
+    ['"a\\\\b"', "'a\\\\b'"],
+    ['"\\e9"', '"é"', "é"],
+]
+
+
+def css_unescape(raw):
+    """CSS meaning of the text of a quoted string (independent of the Lean model of `unquote`):
+    `\\` + 1-6 hex digits (+ one optional space) is that code point, `\\` + any other char is the char"""
+    out, i, n = [], 0, len(raw)
+    while i < n:
+        c = raw[i]
+        if c != "\\":
+            out.append(c)
+            i += 1
+            continue
+        i += 1
+        j = i
+        while j < n and j - i < 6 and raw[j] in "0123456789abcdefABCDEF":
+            j += 1
+        if j > i:
+            cp = int(raw[i:j], 16)
+            out.append(chr(cp) if 0 < cp < 0x110000 and not 0xD800 <= cp < 0xE000 else "\ufffd")
+            i = j + 1 if j < n and raw[j] == " " else j
+        elif i < n:
+            out.append(raw[i])
+            i += 1
+    return "".join(out)
 
 
 _CONV = None
